@@ -14,3 +14,47 @@ Theorem c33_perm_bijective : forall m off skip,
   NoDup (permutation m off skip).
 Proof. exact perm_bijective. Qed.
 Print Assumptions c33_perm_bijective.
+
+From Verif.C33 Require Import Fill Order Indep ByteOrder.
+
+(* For every prime table size, all hash functions, byte orders and lists of AddBackend calls: Generate neither
+   runs off a preference list (no index panic) nor out of the modelled fuel; with no backend it returns nil,
+   otherwise a table of exactly m entries each of which is one of the backends (no nil slot). *)
+Theorem c33_terminates_full : forall bo cpu h1 h2 m names,
+  prime (Z.of_N m) ->
+  let bks := add_all bo cpu h1 h2 m names in
+  match bks with
+  | [] => generate m bks = GNil
+  | _ => exists lst, generate m bks = GLut lst /\ length lst = N.to_nat m /\
+                     forall e, In e lst -> exists v, e = Some v /\ v < len bks
+  end.
+Proof. exact terminates_full. Qed.
+Print Assumptions c33_terminates_full.
+
+(* Balance: with K distinct backends, backend number b (in sorted order) owns exactly
+   floor(m/K) + (1 if b < m mod K) slots; hence any two shares differ by at most one slot, and every backend
+   owns at least one slot whenever K <= m. *)
+Theorem c33_balanced : forall bo cpu h1 h2 m names lst,
+  prime (Z.of_N m) ->
+  let bks := add_all bo cpu h1 h2 m names in
+  let K := len bks in
+  generate m bks = GLut lst ->
+  (forall b, b < K -> cnt_list b lst = N.to_nat (m / K + (if b <? m mod K then 1 else 0))) /\
+  (forall a b, a < K -> b < K -> (cnt_list a lst <= cnt_list b lst + 1)%nat) /\
+  (K <= m -> forall b, b < K -> (1 <= cnt_list b lst)%nat).
+Proof. exact balanced_shares. Qed.
+Print Assumptions c33_balanced.
+
+(* Node independence, order part: the table, as a list of backend names, depends only on the SET of backend names
+   that were added (any order, any repetition), for every table size (prime or not) and all hash functions. *)
+Theorem c33_order_independent : forall bo cpu h1 h2 m names1 names2,
+  (forall x, In x names1 <-> In x names2) ->
+  maglev bo cpu h1 h2 m names1 = maglev bo cpu h1 h2 m names2.
+Proof. exact order_independent. Qed.
+Print Assumptions c33_order_independent.
+
+(* hypotheses are satisfiable: 7 is prime, and three pod addresses give a full, balanced table *)
+Example c33_example :
+  prime 7 /\ maglev BOLittle LE fnv32 fnv32 7 witness_names
+             = TLut (map (fun i => nth_error witness_names i) [2; 1; 0; 0; 2; 0; 1]%nat).
+Proof. split; [apply (is_prime_correct 7); vm_compute; reflexivity | vm_compute; reflexivity]. Qed.
